@@ -39,7 +39,7 @@ func init() {
 	realAll := []string{"all gmsm code involved in the scenario: a scratch copy of /repo's working tree, instrumented by /verif/rewrite (locks, once, atomics, time.Now), built for this run"}
 	props["C07"] = propCfg{
 		Level:  "fault_enumeration",
-		Quick:  tierCfg{Runs: 66000, Deadline: 60, RunMS: 60000, MinimiseS: 40},
+		Quick:  tierCfg{Runs: 66000, Deadline: 100, RunMS: 60000, MinimiseS: 40},
 		Thor:   tierCfg{Runs: 4000000, Deadline: 1500, RunMS: 60000, MinimiseS: 240},
 		Rule:   "two families. tls-record-sweep (enumerated): for a seed-chosen small GMSSL session (every record <= 128 bytes) one simulated run per fault position — every bit of every protected record (Finished, data, close_notify) of both directions, every truncation length, extension by 1..32 bytes, drop, duplicate, adjacent swap, length-field+1; run k of the family is position k of session k/12330. tls-record-attack (sampled): payloads up to 16 KiB per write, both GM suites and TLS suites, 15 fault kinds incl. replay of earlier records, cross-direction and cross-connection injection, header rewrites, FIN before/inside a record, on a drawn record under drawn network behaviour and schedules. Oracle: delivered bytes are a prefix of sent bytes after every Read; exactly the plaintext of the records before the first affected one (computed by the independent decoder from the sender's capture and key log); non-EOF sticky error; fatal alert on the wire; IV/nonce/sequence audit of every session. distinct_nontrivial = distinct signatures (suite, fault kind, direction, affected record and its type, bit class / exact position in sweep runs) among runs in which the fault actually fired.",
 		Real:   realAll,
